@@ -146,7 +146,10 @@ def c07_monitor(ctx, res, fn, case, impl, model, spec):
         if impl[0] != want:
             m = dict(suite=res.name, case=case, impl=' '.join(impl), spec=want,
                      what='Key.Order disagrees with SQLite\'s exact order')
-            kid = known_match(ctx, 'int_beyond_2p53_vs_real') if dom == 'u' else None
+            # finding F-C07-1 is about an INTEGER compared with a REAL through float64; two INTEGERs
+            # (or two REALs) are compared exactly, whatever their size
+            tg = sval_tags(case.split()[2:])
+            kid = known_match(ctx, 'int_beyond_2p53_vs_real') if dom == 'u' and sorted(tg[:2]) == ['I', 'R'] else None
             if kid:
                 m['finding'] = kid; res.known_hits.append(m)
             else:
@@ -692,11 +695,11 @@ def parse_sql_ops(case):
             ops.append(('ins', c, key, None)); i = names(j)
         elif k == 'upd':
             c = int(t[i + 1]); key = sval(i + 2); j = i + 2 + len(key); n = int(t[j]); j += 1
-            partial = False
+            partial = False; mask = []
             for _ in range(n):
-                if t[j] == '_': partial = True; j += 1
-                else: j += 1 + len(sval(j + 1))
-            ops.append(('upd', c, key, partial)); i = names(j)
+                if t[j] == '_': partial = True; mask.append(False); j += 1
+                else: mask.append(True); j += 1 + len(sval(j + 1))
+            ops.append(('upd', c, key, partial, tuple(mask))); i = names(j)
         elif k == 'del':
             c = int(t[i + 1]); key = sval(i + 2); ops.append(('del', c, key, None)); i = names(i + 2 + len(key))
         elif k == 'sel':
@@ -729,17 +732,36 @@ def c02_monitor(ctx, res, case, impl_line, model_line, spec):
         m = dict(suite=res.name, case=case, op_index=idx, impl=' '.join(got)[:1500], spec=' '.join(want)[:1500],
                  what='merged table differs from the documented conflict rule applied to the set of accepted statements')
         ops = parse_sql_ops(case)
-        partial = any(o[0] == 'upd' and o[3] for o in ops)
         dels = {(o[2]) for o in ops if o[0] == 'del'}
-        upd_del = any(o[0] == 'upd' and o[2] in dels for o in ops)
+        upds = {(o[2]) for o in ops if o[0] == 'upd'}
         kid = None
         shape = None
         if mask_empty_text(want) == got:
             shape = 'empty_text_reads_null'
-        elif partial:
-            shape = 'partial_update_rewrites_row'
-        elif upd_del:
-            shape = 'update_resurrects_deleted'
+        else:
+            # the recorded findings explain a divergence KEY BY KEY (anything else in the same history
+            # is still a violation):
+            #  F-C02-2: a key that was deleted and is the target of an UPDATE — the row's presence or
+            #           any of its cells may differ (the UPDATE stamped the row's insert/delete time);
+            #  F-C02-1: a cell (k, c) may differ when some UPDATE of k assigned other columns but not c
+            #           (the unassigned cell was re-written with that statement's time).
+            gr, wr = rows_by_key(got[1:]) if got[:1] in (['SA'], ['SD']) else None, rows_by_key(want[1:]) if want[:1] in (['SA'], ['SD']) else None
+            if gr is not None and wr is not None:
+                used = set()
+                explained = True
+                for k in set(gr) | set(wr):
+                    if gr.get(k) == wr.get(k):
+                        continue
+                    if k in dels and k in upds:
+                        used.add('update_resurrects_deleted'); continue
+                    if k in gr and k in wr and len(gr[k]) == len(wr[k]):
+                        cols = [ci for ci in range(len(gr[k])) if gr[k][ci] != wr[k][ci]]
+                        if all(any(o[0] == 'upd' and o[2] == k and ci < len(o[4]) and not o[4][ci] and any(o[4]) for o in ops) for ci in cols):
+                            used.add('partial_update_rewrites_row'); continue
+                    explained = False
+                    break
+                if explained and used:
+                    shape = 'partial_update_rewrites_row' if 'partial_update_rewrites_row' in used else 'update_resurrects_deleted'
         if shape and ctx.prop != 'C02':
             continue   # recorded under C02 / C08; not what this property is about
         if shape:
